@@ -765,13 +765,23 @@ bool aiounicast_select::Send
 	for (size_t mm = 0; mm < m.size(); mm++)
 	{
 		if (!Send(m[mm], i_in, timeout))
+		{
+			// a part of the array is on the wire: the receiver would complete it
+			// with elements of the next array, refuse further output instead
+			if (mm > 0)
+				fd_out.erase(i_in);
 			return false;
+		}
 	}
 	if (aio_is_chunked)
 	{
 		// send a delimiter for the array
 		if (!Send(aio_array_delimiter, i_in, timeout))
+		{
+			if (m.size() > 0)
+				fd_out.erase(i_in); // array without its delimiter on the wire
 			return false;
+		}
 	}
 	return true;
 }
